@@ -52,6 +52,7 @@ inductive Expr
   | index (e : Expr) (i : Int)
   | comp (elt : Expr) (x : String) (iter : Expr)      -- `[elt for x in iter]` / a generator expression
   | compIf (elt : Expr) (x : String) (iter : Expr) (cond : Expr)   -- `[elt for x in iter if cond]`
+  | compT (elt : Expr) (xs : List String) (iter : Expr)           -- `[elt for a, b, c in iter]` (tuple target)
   | fstr                                               -- an f-string: some string (its text is never looked at)
   | unsupported (what : String)
   deriving Repr, Inhabited
@@ -277,6 +278,13 @@ def builtin (f : String) (args : List Val) : Option Val :=
       | some xs => (intsOf? xs).map (fun is => .int (is.foldl (· + ·) 0))
       | none => some (.err "sum: not a sequence")
   | "any", [v] => v.elems?.map (fun xs => .bool (xs.any (fun x => x.truthy == some true)))
+  | "np.any", [v] => v.elems?.map (fun xs => .bool (xs.any (fun x => x.truthy == some true)))
+  | "zip", [a, b] => match a.elems?, b.elems? with
+      | some xs, some ys => some (.list (List.zipWith (fun x y => Val.tuple [x, y]) xs ys))
+      | _, _ => Option.none
+  | "zip", [a, b, c] => match a.elems?, b.elems?, c.elems? with
+      | some xs, some ys, some zs => some (.list (List.zipWith (fun x yz => Val.tuple (x :: yz)) xs (List.zipWith (fun y z => [y, z]) ys zs)))
+      | _, _, _ => Option.none
   | "all", [v] => v.elems?.map (fun xs => .bool (xs.all (fun x => x.truthy == some true)))
   | "reversed", [v] => v.elems?.map (fun xs => .list xs.reverse)
   | "dict", [] => some (.list [])               -- the empty mapping (its only use in the fragment: membership, hooks for lookups)
@@ -302,6 +310,11 @@ def indexVal (v : Val) (i : Int) : Val :=
   | some xs =>
     let j : Int := if i < 0 then xs.length + i else i
     if j < 0 then .err "IndexError" else (xs[j.toNat]?).getD (.err "IndexError")
+
+def bindTuple : List String → List Val → Vars → Option Vars
+  | [], [], vs => some vs
+  | x :: xs, v :: rest, vs => bindTuple xs rest (vs.set x v)
+  | _, _, _ => none
 
 mutual
 def eval (env : Env) (vs : Vars) : Expr → Val
@@ -352,6 +365,16 @@ def eval (env : Env) (vs : Vars) : Expr → Val
           .list ((vals.filter (fun v => (eval env (vs.set x v) cond).truthy == some true)).map
             (fun v => eval env (vs.set x v) elt))
       | none => .err "comprehension over a non-sequence"
+  | .compT elt xs iter =>
+      match (eval env vs iter).elems? with
+      | some vals =>
+          .list (vals.map (fun v =>
+            match v.elems? with
+            | some parts => (match bindTuple xs parts vs with
+                | some vs' => eval env vs' elt
+                | none => .err "unpack")
+            | none => .err "unpack of a non-sequence"))
+      | none => .err "comprehension over a non-sequence"
   | .fstr => .str "<f-string>"
   | .unsupported what => .err ("unsupported expression: " ++ what)
 def evalList (env : Env) (vs : Vars) : List Expr → List Val
@@ -372,11 +395,6 @@ def forLoop (body : Vars → Val → Outcome) : List Val → Vars → Outcome
     match body vs v with
     | .cont vs' => forLoop body rest vs'
     | o => o
-
-def bindTuple : List String → List Val → Vars → Option Vars
-  | [], [], vs => some vs
-  | x :: xs, v :: rest, vs => bindTuple xs rest (vs.set x v)
-  | _, _, _ => none
 
 mutual
 def exec (env : Env) (vs : Vars) : Stmt → Outcome
